@@ -644,7 +644,8 @@ pub fn main(args: &Args) {
         // an environment-level violation should replay exactly; if the tree under test has a source of
         // nondeterminism the simulator does not own (its own threads, say), a few attempts may be needed
         let mut confirmed_after = 0;
-        for attempt in 1..=6 {
+        // (a hang costs its whole budget per attempt: one confirmation is enough there)
+        for attempt in 1..=(if min.kind == "hang" { 1 } else { 6 }) {
             let confirm = std::process::Command::new(std::env::current_exe().unwrap()).args(["c18-replay", path.to_str().unwrap(), "--quiet"]).output().unwrap();
             if confirm.status.code() == Some(1) {
                 confirmed_after = attempt;
